@@ -224,6 +224,7 @@ class Pipeline:
             if 'cProverStatus' in it:
                 res['status'] = it['cProverStatus']
         res['solver_s'] = round(res['solver_s'], 3)
+        if res['status'] == 'error' and 'out of memory' in res['note'].lower(): res['status'] = 'memout'
         return res
 
     def run_cbmc(self, q, meta, witness, trace=False, prop=None, timeout=None):
@@ -266,14 +267,35 @@ class Pipeline:
                      + [os.path.join(VT, 'stubs', s) for s in q.stubs]
             if q.silent_throw: common.append('-DVT_THROW_ENDS_PATH_SILENTLY')
             ll = os.path.join(d, 'prog_ll_' + tag); cc = os.path.join(d, 'prog_c_' + tag)
+            weak = self.weak_externs(meta)
             san = ['-fsanitize=address', '-fno-omit-frame-pointer'] if asan else []
-            r = sh([CLANG, '-O0', '-x', 'ir', os.path.join(d, 'module.ll'), '-x', 'c'] + common + san + ['-lm', '-o', ll], timeout=600)
+            r = sh([CLANG, '-O0', '-x', 'ir', os.path.join(d, 'module.ll'), '-x', 'c'] + common + san + [weak, '-lm', '-o', ll], timeout=600)
             if r['rc'] != 0: raise BuildError('native ll link (%s): %s' % (q.entry, r['err'][-3000:]))
             if not asan:
-                r = sh(['gcc', '-O0', '-fwrapv', '-fno-strict-aliasing', '-ffp-contract=off', os.path.join(d, 'module.c')] + common + ['-lm', '-o', cc], timeout=600)
+                r = sh(['gcc', '-O0', '-fwrapv', '-fno-strict-aliasing', '-ffp-contract=off', os.path.join(d, 'module.c')] + common + [weak, '-lm', '-o', cc], timeout=600)
                 if r['rc'] != 0: raise BuildError('native c link (%s): %s' % (q.entry, r['err'][-3000:]))
             return ll, cc
         return self.once(key, build)
+
+    LIBC = set('''malloc free calloc realloc memcpy memmove memset memcmp strlen strcmp abort sqrt fabs floor ceil fmod cos sin tan acos
+        asin atan atan2 pow exp log log2 log10 fmin fmax round trunc copysign rint nearbyint hypot cbrt tgamma lgamma nanosleep
+        __errno_location printf puts putchar fprintf snprintf sprintf fwrite fflush exit _exit'''.split())
+
+    def weak_externs(self, meta):
+        """weak fatal definitions for externs that are referenced (vtables) but never modelled; calling one is reported"""
+        def build():
+            out = os.path.join(meta['dir'], 'weak_externs.c')
+            with open(out, 'w') as f:
+                f.write('void vt_native_fatal(const char *);\n')
+                for n in meta['externs']:
+                    if n in self.LIBC or ALLOWED_BODYLESS.match(n) or n.startswith('vt_'): continue
+                    if not re.fullmatch(r'[A-Za-z_][A-Za-z0-9_]*', n): continue
+                    f.write('__attribute__((weak)) void %s(void) { vt_native_fatal("unmodelled extern called: %s"); }\n' % (n, n))
+                for n in meta['extern_globals']:
+                    if not re.fullmatch(r'[A-Za-z_][A-Za-z0-9_]*', n) or n in ('vt_thrown',): continue
+                    f.write('__attribute__((weak)) char %s[256];\n' % n)
+            return out
+        return self.once(('weak', meta['dir']), build)
 
     def validate_translation(self, q, meta, count=200):
         key = ('tv', meta['dir'], q.entry)
